@@ -11,6 +11,7 @@ import (
 	"net/url"
 	"strconv"
 	"strings"
+	"unicode/utf8"
 
 	"github.com/WICG/webpackage/go/bundle/version"
 	"github.com/WICG/webpackage/go/internal/cbor"
@@ -114,6 +115,9 @@ type indexSection struct {
 func checkURL(u *url.URL, what string, mustBeAbsolute bool) error {
 	if u == nil {
 		return fmt.Errorf("bundle: %s is missing", what)
+	}
+	if !utf8.ValidString(u.String()) {
+		return fmt.Errorf("bundle: %s is not valid UTF-8", what)
 	}
 	parsed, err := url.Parse(u.String())
 	if err != nil {
@@ -544,12 +548,16 @@ func addExchange(is *indexSection, rs *responsesSection, e *Exchange) error {
 	return nil
 }
 
-func writePrimaryURL(w io.Writer, url *url.URL) error {
-	if url == nil {
+func writePrimaryURL(w io.Writer, u *url.URL) error {
+	if u == nil {
 		return errors.New("bundle: this version of the WebBundle requires a primary URL")
 	}
+	// The b1 reader only requires the fallback URL to parse.
+	if _, err := url.Parse(u.String()); err != nil {
+		return fmt.Errorf("bundle: primary URL (%s) does not parse: %v", u, err)
+	}
 	enc := cbor.NewEncoder(w)
-	return enc.EncodeTextString(url.String())
+	return enc.EncodeTextString(u.String())
 }
 
 // https://wicg.github.io/webpackage/draft-yasskin-dispatch-bundled-exchanges.html#load-metadata
